@@ -7,7 +7,6 @@ import (
 	"github.com/corazawaf/coraza/v3/experimental/plugins/macro"
 	"github.com/corazawaf/coraza/v3/experimental/plugins/plugintypes"
 	"github.com/corazawaf/coraza/v3/internal/corazawaf"
-	utils "github.com/corazawaf/coraza/v3/internal/strings"
 )
 
 // Action Group: Metadata
@@ -23,7 +22,8 @@ import (
 type msgFn struct{}
 
 func (a *msgFn) Init(r plugintypes.RuleMetadata, data string) error {
-	data = utils.MaybeRemoveQuotes(data)
+	// The action list parser has already removed the quotes that wrap the value;
+	// removing quotes again would alter a message that itself begins and ends with one.
 	if len(data) == 0 {
 		return ErrMissingArguments
 	}
